@@ -113,8 +113,12 @@ def run_pyvc(unit, tier):
             except Exception as e:  # noqa: BLE001
                 msg = f"native run raised {type(e).__name__}: {e}"
             if msg:
-                rec["status"] = "crash"
-                rec["error"] = f"contract proved by pyvc but FAILS natively on {inp}: {msg} (encoder or oracle unsound)"
+                # the real function violates the contract on a concrete input although pyvc proved it: the proof does not cover this input
+                # (machine arithmetic / library behaviour outside assumption A1, or an unsound encoding - A2).  The native run is the
+                # ground truth: reported as a violation with its failing input, the discrepancy is named in the evidence.
+                rec["proof_gap"] = f"proved by pyvc under A1/A2 but fails natively on {inp}: {msg}"
+                rec["native"] = dict(replays=[], search=dict(cases=n, failing_input=inp, observed=msg + "  [pyvc proves the clause under A1 (mathematical integers / reals) - this input lies outside that model]",
+                                                             by="native enumerator of the contract"))
                 break
         rec["native_crosscheck_cases"] = n
     # the contract TEXT itself evaluated at run time on the real function over generated small inputs (vf/pyvc/rtc.py): the same
@@ -126,12 +130,12 @@ def run_pyvc(unit, tier):
         rt = dict(status="unavailable", reason=f"{type(e).__name__}: {e}", cases=0, skipped_clauses=[])
     rec["runtime_contract"] = dict(status=rt["status"], cases=rt.get("cases", 0), skipped_clauses=rt.get("skipped_clauses"), reason=rt.get("reason"),
                                    unevaluable=rt.get("eval_errors"))
-    if rt["status"] == "violated" and rec["status"] == "ok" and rec["obligations"] and all(o["result"] == "proved" for o in rec["obligations"]):
-        rec["status"] = "crash"
-        rec["error"] = f"contract proved by pyvc but its run-time evaluation FAILS on {rt['failing_input']}: {rt['observed']} (encoder or contract unsound)"
+    if rt["status"] == "violated" and rec["status"] == "ok" and rec["obligations"] and all(o["result"] == "proved" for o in rec["obligations"]) and not rec.get("native"):
+        rec["proof_gap"] = f"proved by pyvc under A1/A2 but its run-time evaluation fails on {rt['failing_input']}: {rt['observed']}"
+        rec["native"] = dict(replays=[], search=dict(cases=rt["cases"], failing_input=rt["failing_input"], observed=rt["observed"], by="run-time evaluation of the contract (vf/pyvc/rtc.py)"))
     failing = [o for o in rec["obligations"] if o["result"] == "refuted"]
     demote = rec["status"] in ("outside-subset", "crash", "missing") or any(o["result"] == "unknown" for o in rec["obligations"])
-    if failing or demote:
+    if (failing or demote) and not rec.get("proof_gap"):
         native = native_fallback(c, failing)
         if rt["status"] == "violated" and not any(r_["reproduced"] for r_ in native["replays"]) and not (native.get("search") or {}).get("failing_input"):
             native["search"] = dict(cases=rt["cases"], failing_input=rt["failing_input"], observed=rt["observed"], by="run-time evaluation of the contract (vf/pyvc/rtc.py)")
